@@ -359,13 +359,17 @@ func IsPublic(s string) bool {
 	return s == PublicActivityPubIRI || s == publicJsonLD || s == publicJsonLDAS
 }
 
-// getInboxes extracts the 'inbox' IRIs from actor types.
+// getInboxes extracts the 'inbox' IRIs from actor types. Values without a
+// usable 'inbox' are left out.
 func getInboxes(t []vocab.Type) (u []*url.URL, err error) {
 	for _, elem := range t {
 		var iri *url.URL
 		iri, err = getInbox(elem)
 		if err != nil {
-			return
+			// A recipient whose document names no usable inbox is
+			// skipped, like one that cannot be fetched at all.
+			err = nil
+			continue
 		}
 		u = append(u, iri)
 	}
